@@ -197,7 +197,9 @@ theorem wLive_step {P : Params} {s : St} (hK : LockInv s) (h : WLive s) (c : Cho
   | fire => simp only [step]; split <;> exact ⟨h1, h2, h3⟩
   | startTrace => simp only [step]; split <;> exact ⟨h1, h2, h3⟩
   | other => simp only [step]; split <;> exact ⟨h1, h2, h3⟩
+  | strayTrace => simp only [step]; split <;> exact ⟨h1, h2, h3⟩
   | birth => simp only [step]; split <;> exact ⟨h1, h2, h3⟩
+  | spawnStray => simp only [step]; split <;> exact ⟨h1, h2, h3⟩
   | death => simp only [step]; split <;> exact ⟨h1, h2, h3⟩
 
 /-! ## The single monitor sees every start trace -/
@@ -260,12 +262,17 @@ theorem lInv_step {P : Params} {s : St} (hL : LiveHyp P) (hC : Cnt P s) (h : LIn
     | call => exact lInv_congr pre rfl rfl rfl rfl rfl
     | fire => simp only [step]; split <;> exact lInv_congr pre rfl rfl rfl rfl rfl
     | birth => simp only [step]; split <;> exact lInv_congr pre rfl rfl rfl rfl rfl
+    | spawnStray => simp only [step]; split <;> exact lInv_congr pre rfl rfl rfl rfl rfl
     | death => simp only [step]; split <;> exact lInv_congr pre rfl rfl rfl rfl rfl
     | startTrace =>
       simp only [step]; split
       · exact Or.inl ⟨a, b, cc, by simp [mkPending, cc]⟩
       · exact pre
     | other =>
+      simp only [step]; split
+      · exact Or.inl ⟨a, b, cc, by simp [mkPending, cc]⟩
+      · exact pre
+    | strayTrace =>
       simp only [step]; split
       · exact Or.inl ⟨a, b, cc, by simp [mkPending, cc]⟩
       · exact pre
@@ -278,6 +285,7 @@ theorem lInv_step {P : Params} {s : St} (hL : LiveHyp P) (hC : Cnt P s) (h : LIn
     | call => exact lInv_congr cur rfl rfl rfl rfl rfl
     | fire => simp only [step]; split <;> exact lInv_congr cur rfl rfl rfl rfl rfl
     | birth => simp only [step]; split <;> exact lInv_congr cur rfl rfl rfl rfl rfl
+    | spawnStray => simp only [step]; split <;> exact lInv_congr cur rfl rfl rfl rfl rfl
     | death => simp only [step]; split <;> exact lInv_congr cur rfl rfl rfl rfl rfl
     | starter =>
       simp only [step, stepStarter]
@@ -409,6 +417,19 @@ theorem lInv_step {P : Params} {s : St} (hL : LiveHyp P) (hC : Cnt P s) (h : LIn
           | true => rw [c4, hs] at hp; simp [mkPending] at hp; exact ⟨hp.2.symm, rfl⟩
           | false => rw [c4, hs] at hp; simp [mkPending] at hp
       · exact cur
+    | strayTrace =>
+      simp only [step]; split
+      · next hc =>
+        simp at hc
+        refine Or.inr ⟨m, hm, ⟨c1, c2, fun h => ?_, c4, fun t ks hp => ?_⟩⟩
+        · have := c3 h
+          simp only [pendFor, hc.2] at this
+          simp only [pendFor, mkPending]
+          split <;> simp_all
+        · cases hs : m.pc.subscribed with
+          | true => rw [c4, hs] at hp; simp [mkPending] at hp; exact ⟨hp.2.symm, rfl⟩
+          | false => rw [c4, hs] at hp; simp [mkPending] at hp
+      · exact cur
 
 /-! ## The progress measure -/
 
@@ -435,7 +456,7 @@ def helperMu : HPc → Nat
 def waitMu (x : Wait) : Nat := helperMu x.helper + (if x.caller = .waiting then 1 else 0)
 
 /-- an upper bound on the number of moves the engine's goroutines still have to make -/
-def mu (s : St) : Nat := pendMu s + (s.mons.map monMu).sum + (s.waits.map waitMu).sum
+def mu (s : St) : Nat := pendMu s + (s.mons.map monMu).sum + (s.waits.map waitMu).sum + 4 * s.strays
 
 theorem sum_map_upd {α : Type} (l : List α) (i : Nat) (f : α → α) (g : α → Nat) (y : α) (hy : l[i]? = some y) :
     ((upd l i f).map g).sum + g y = (l.map g).sum + g (f y) := by
@@ -500,7 +521,16 @@ theorem live_decrease {P : Params} {s : St} (h : LiveCtx P s) (c : Choice) (hc :
   | fire => simp [Choice.internal] at hc
   | startTrace => simp [Choice.internal] at hc
   | other => simp [Choice.internal] at hc
+  | strayTrace =>
+    simp only [step]
+    split
+    · next hst =>
+      right
+      simp at hst
+      cases hs : m.pc.subscribed <;> simp [mu, pendMu, hst.2, mkPending, c4, hs] <;> omega
+    · exact Or.inl rfl
   | birth => simp [Choice.internal] at hc
+  | spawnStray => simp [Choice.internal] at hc
   | death => simp [Choice.internal] at hc
   | call => simp [Choice.internal] at hc
   | expire w => simp [Choice.internal] at hc
@@ -594,10 +624,11 @@ theorem live_decrease {P : Params} {s : St} (h : LiveCtx P s) (c : Choice) (hc :
 
 /-- in a quiet state the token stream is over: its choices change nothing -/
 theorem quiet_env_noop {P : Params} {s : St} (I : Inv P s) (hq : quiet P s) :
-    step P s .fire = s ∧ step P s .startTrace = s ∧ step P s .other = s ∧ step P s .birth = s ∧ step P s .death = s := by
+    step P s .fire = s ∧ step P s .startTrace = s ∧ step P s .other = s ∧ step P s .birth = s ∧ step P s .death = s ∧
+    step P s .spawnStray = s := by
   obtain ⟨q1, q2, q3⟩ := hq
   have := I.cnt.c2; have := I.cnt.c3
-  refine ⟨?_, ?_, ?_, ?_, ?_⟩ <;> simp only [step] <;> split <;> first | rfl | omega
+  refine ⟨?_, ?_, ?_, ?_, ?_, ?_⟩ <;> simp only [step] <;> split <;> first | rfl | omega
 
 theorem live_call {P : Params} (s : St) : mu (step P s .call) = mu s + 3 := by
   simp [step, mu, pendMu, waitMu, helperMu]; omega
@@ -817,8 +848,10 @@ theorem live_bound {P : Params} {s : St} (h : LiveCtx P s) (sched : List Choice)
       | fire => simp only [noop.1] at ih' ⊢; simp at ih' ⊢; omega
       | startTrace => simp only [noop.2.1] at ih' ⊢; simp at ih' ⊢; omega
       | other => simp only [noop.2.2.1] at ih' ⊢; simp at ih' ⊢; omega
+      | strayTrace => simp [Choice.internal] at hc
       | birth => simp only [noop.2.2.2.1] at ih' ⊢; simp at ih' ⊢; omega
-      | death => simp only [noop.2.2.2.2] at ih' ⊢; simp at ih' ⊢; omega
+      | spawnStray => simp only [noop.2.2.2.2.2] at ih' ⊢; simp at ih' ⊢; omega
+      | death => simp only [noop.2.2.2.2.1] at ih' ⊢; simp at ih' ⊢; omega
 
 /-! ## Completion and the return of `StartAll` are reachable (consequences of bounded progress) -/
 
